@@ -98,3 +98,7 @@ def run(m, chk):
         miss = [w for w in need if not R.dep_has(mayd, w)]
         chk.ob("DEP-MAY", f"{OR}: control points of the joined curve depend on both operands", not miss, loc=r.loc(ctx, ctx.cfg.nodes[nid].ast), detail="" if not miss else f"{OR}: joined control points ignore {r.fmt_deps(fi, miss)}", func=OR, construct="joined points ignore an operand")
     rule_d(r, chk, [SPLIT], floor=4)
+    from .extra import interval_from_operand, mult_keep
+
+    interval_from_operand(r, chk, [SPLIT, OR], floor=2)
+    mult_keep(r, chk, ["heavy.ImmutableKnotVector.split", "heavy.Operations.split_curve", "knotspace.KnotVector.split", SPLIT, OR], floor=3)
